@@ -161,7 +161,7 @@ def _run(ctx, pool):
             raise vlib.Undecided("harness error: %r" % (res,))
         with lock:
             for out in res["outs"]:
-                record(out, req.get("toks") or req.get("raw"))
+                record(out, req.get("toks") or req.get("raw") or req.get("gen"))
 
     def on_retry(req, res):
         if res.get("fatal"):
@@ -169,7 +169,7 @@ def _run(ctx, pool):
             v["count"] += 1
             v["phases"].add("retry")
             if v["example"] is None:
-                v["example"] = dict(res="fatal", nbytes=0, ntok=0, what=req.get("toks") or req.get("raw"), phase="retry",
+                v["example"] = dict(res="fatal", nbytes=0, ntok=0, what=req.get("toks") or req.get("raw") or req.get("gen"), phase="retry",
                                     panic="; ".join(res.get("viol", []))[:600])
             return
         on_result(req, res)
@@ -259,6 +259,22 @@ def _run(ctx, pool):
     if not stopped():
         pool.run_all(random_requests(tier["random"]), on_result, chunk=64)
 
+    # ---- (f): conditions of millions of operands (inputs of 50-60 MB, built by the harness): the front end answers - with a
+    # statement or an error value - in time linear in the input, whatever the nesting its grammar gives them
+    if not stopped():
+        phase[0] = "deep"
+        deep = [dict(mode="c09", gen=dict(head="SELECT * FROM t WHERE a = 1", rep=" OR a = 1", n=6000000))]
+        if not ctx.quick():
+            deep += [dict(mode="c09", gen=dict(head="SELECT * FROM t WHERE a = 1", rep=" AND a = 1", n=6000000)),
+                     dict(mode="c09", gen=dict(head="DELETE FROM t WHERE a = 1", rep=" AND b = 2 OR a = 1", n=3500000)),
+                     dict(mode="c09", gen=dict(head="SELECT * FROM t JOIN u ON a = 1", rep=" OR a = 1", n=6000000))]
+        old_to = pool.request_timeout
+        pool.request_timeout = 600
+        try:
+            pool.run_all(deep, on_result, chunk=1)
+        finally:
+            pool.request_timeout = old_to
+
     # ---- requests whose worker died: one at a time, so that a death is blamed on the right input
     if retry:
         phase[0] = "retry"
@@ -268,8 +284,8 @@ def _run(ctx, pool):
     if stopped():
         ctx.note("stopped feeding inputs after %d hangs (each costs a watchdog period); coverage of this run is partial" % hangs[0])
 
-    # ---- vacuity (of a complete run)
-    if not stopped():
+    # ---- vacuity (of a complete run in which nothing failed: an input that killed its worker was not counted in its phase)
+    if not stopped() and not viol:
         missing = sorted(set(all_kinds) - kinds_seen)
         if missing:
             raise vlib.Undecided("vacuous: token kinds never produced by the scanner: " + ", ".join(all_kinds[k] for k in missing))
@@ -278,7 +294,7 @@ def _run(ctx, pool):
         for r in ("stmt", "error"):
             if not st["by_result"].get(r):
                 raise vlib.Undecided("vacuous: no input gave outcome '%s'" % r)
-        for ph in ("long", "sequences", "random"):
+        for ph in ("long", "sequences", "random", "deep"):
             if not st["by_phase"].get(ph):
                 raise vlib.Undecided("vacuous: phase '%s' ran no input" % ph)
         if st["max_nbytes"] < 10000:
@@ -301,6 +317,7 @@ def _run(ctx, pool):
                 raise vlib.Undecided("violation %s did not reproduce on a second run (%r)" % (fid, again))
         vlib.report_violation(ctx, dict(kind="c09", signature=fid, inputs_with_this_signature=v["count"], phases=sorted(v["phases"]),
                                         smallest_input=ex.get("in"), input_b64=raw, abstract_tokens=ex["what"] if isinstance(ex["what"], list) else None,
+                                        generated_input=("%r followed by %d times %r" % (ex["what"]["head"], ex["what"]["n"], ex["what"]["rep"])) if isinstance(ex["what"], dict) else None,
                                         expected="a statement or an error value (SqlGrammar!Outcomes)", observed=ex["res"],
                                         panic=ex.get("panic"), innermost_sql_function=ex.get("sig"), frames=ex.get("frames"),
                                         alloc_bytes=ex.get("alloc"), tokens=ex.get("ntok")),
@@ -319,5 +336,5 @@ def _run(ctx, pool):
     vlib.write_evidence(ctx, "exploration", cov, assumptions=[
         "TLC/SANY and the CommunityModules Json module are correct",
         "the renderer in harness/cmd/sqlfe spells abstract tokens and the named lexical classes as documented there",
-        "a 2 s watchdog distinguishes a hang from slow parsing (inputs are at most a few KB)",
+        "a 2 s watchdog distinguishes a hang from slow parsing (inputs are at most a few KB); for the inputs of many megabytes it is 2 s + 1 s per 200 KB",
         "allocation is measured with runtime/metrics (/gc/heap/allocs:bytes) around each call; the ceiling is 8 MiB + 4 KiB per input byte"])
